@@ -447,7 +447,7 @@ void ep2_mul_basic(ep2_t r, const ep2_t p, const bn_t k) {
 
 void ep2_mul_slide(ep2_t r, const ep2_t p, const bn_t k) {
 	ep2_t t[1 << (RLC_WIDTH - 1)], q;
-	uint8_t win[RLC_FP_BITS + 1];
+	uint8_t *win = NULL;
 	size_t l;
 
 	ep2_null(q);
@@ -457,6 +457,9 @@ void ep2_mul_slide(ep2_t r, const ep2_t p, const bn_t k) {
 		return;
 	}
 
+	/* The scalar is not reduced (p may lie outside the subgroup). */
+	win = RLC_ALLOCA(uint8_t, bn_bits(k) + 1);
+
 	RLC_TRY {
 		for (int i = 0; i < (1 << (RLC_WIDTH - 1)); i ++) {
 			ep2_null(t[i]);
@@ -464,6 +467,10 @@ void ep2_mul_slide(ep2_t r, const ep2_t p, const bn_t k) {
 		}
 
 		ep2_new(q);
+
+		if (win == NULL) {
+			RLC_THROW(ERR_NO_MEMORY);
+		}
 
 		ep2_copy(t[0], p);
 		ep2_dbl(q, p);
@@ -482,7 +489,7 @@ void ep2_mul_slide(ep2_t r, const ep2_t p, const bn_t k) {
 #endif
 
 		ep2_set_infty(q);
-		l = RLC_FP_BITS + 1;
+		l = bn_bits(k) + 1;
 		bn_rec_slw(win, &l, k, RLC_WIDTH);
 		for (size_t i = 0; i < l; i++) {
 			if (win[i] == 0) {
@@ -508,6 +515,7 @@ void ep2_mul_slide(ep2_t r, const ep2_t p, const bn_t k) {
 			ep2_free(t[i]);
 		}
 		ep2_free(q);
+		RLC_FREE(win);
 	}
 }
 
